@@ -124,6 +124,9 @@ func propertyFailsL(prop, op, res, lean string) (why string) {
 			if b := unhexOr(fieldsOf(args)[0]); kind == "REMB" && len(b) >= 20 && b[17]&3 == 0 && b[18] == 0 && b[19] == 0 {
 				tag = " [remb-mantissa-zero]"
 			}
+			if kind == "CCFB" {
+				tag = " [ccfb-num-reports]" // every RFC 8888 encoding with a non-empty block is read with one metric block too many
+			}
 			if !isOK {
 				return "valid encoding rejected" + tag
 			}
